@@ -123,6 +123,7 @@ func quickHasNewFuncs(dir, goarch string, tags []string) bool {
 		return true
 	}
 	fset := token.NewFileSet()
+	seen := map[string]bool{}
 	for _, e := range ents {
 		name := e.Name()
 		if e.IsDir() || !strings.HasSuffix(name, ".go") || strings.HasSuffix(name, "_test.go") {
@@ -172,6 +173,13 @@ func quickHasNewFuncs(dir, goarch string, tags []string) bool {
 			if _, known := headFuncs[key]; !known {
 				return true
 			}
+			seen[key] = true
+		}
+	}
+	for _, spec := range outlineSpecs {
+		// a request unit of the retry client written into its task closure (see outlineRound)
+		if !seen["RetryClient."+spec.req] && seen["RetryClient."+spec.api] {
+			return true
 		}
 	}
 	return false
@@ -250,6 +258,9 @@ func Normalize(dir, goarch string, tags []string) (map[string][]byte, []string) 
 		}
 		if !changed {
 			changed = n.sinkRound()
+		}
+		if !changed {
+			changed = n.outlineRound()
 		}
 		if !changed {
 			changed = n.unwrapRound() // last: locals of such a type have been split by field where that is possible
